@@ -85,15 +85,14 @@ Lemma self_silent : in_domain w_self_silent = true
   /\ runs cl_sides true w_self_silent = false.
 Proof. vm_compute. auto. Qed.
 
-(* Before("*").Register(u1); Replace(u1): the old handler (step 1) runs, not the new one (step 2) *)
+(* Before("*").Register(u1); Replace(u1): since /repo e28c215 the replacement inherits the "*" request:
+   the NEW handler (step 2) runs, still first.  (Before: the old handler ran, behind gorm:row.) *)
 Definition w_star_replace := row ++ [reg "u1" "*" ""; mk_step KReplace "u1" "" "" false true].
-Lemma star_replace_old_handler :
+Lemma star_replace_fixed :
   in_domain w_star_replace = true
-  /\ last (run w_star_replace) OCrash = OOk [("gorm:row", 0%N); ("u1", 1%N)]
-  /\ runs cl_handler true w_star_replace = false
-  /\ runs cl_replace true w_star_replace = false
-  /\ runs cl_sides true w_star_replace = false.
-Proof. vm_compute. auto 6. Qed.
+  /\ last (run w_star_replace) OCrash = OOk [("u1", 2%N); ("gorm:row", 0%N)]
+  /\ runs spec_ok false w_star_replace = true.
+Proof. vm_compute. auto. Qed.
 
 (* After("*").Register(u1); Before(u1).Register(u2); Register(u3): satisfiable, yet u3 fires after u1 *)
 Definition w_overwrite := row ++ [reg "u1" "" "*"; reg "u2" "u1" ""; reg "u3" "" ""].
